@@ -10,6 +10,13 @@ use refmodel::geom::{geometry, Region};
 use refmodel::tables::*;
 use serde_json::{json, Value};
 
+thread_local! {
+    /// a version-40 symbol (every kind of function pattern far outside any smaller square) used as clone_from target
+    static LARGE: Box<fast_qr::QRCode> = Box::new(
+        fast_qr::QRBuilder::new("CLONE TARGET").version(fast_qr::Version::V40).ecl(fast_qr::ECL::L).build().expect("v40 symbol"),
+    );
+}
+
 pub fn check(bc: &BuildCase, fam: &str, obs: &mut Obs) -> Result<(), Fail> {
     let built = match do_build(bc)? {
         Ok(b) => b,
@@ -65,6 +72,28 @@ pub fn check(bc: &BuildCase, fam: &str, obs: &mut Obs) -> Result<(), Fail> {
             );
         }
     }
+    // copies of the symbol are the same symbol: `clone()`, and `clone_from` / `clone_into` onto a value that held a
+    // LARGER symbol before (one case in four), must give exactly the same backing array - in particular nothing of the
+    // larger symbol may survive outside the square
+    if bc.hash() % 4 == 0 {
+        let copies = crate::engine::catch(|| {
+            let a = (*built.qr).clone();
+            let mut slot = LARGE.with(|l| l.clone());
+            slot.clone_from(&built.qr);
+            (a, slot)
+        })
+        .map_err(|p| Fail { sig: crate::engine::panic_sig(&p), msg: format!("cloning the symbol panicked: {}", p) })?;
+        for (what, q) in [("clone()", &copies.0), ("clone_from() onto a version-40 symbol", &copies.1)] {
+            if q.size != n || q.data.iter().zip(built.qr.data.iter()).any(|(x, y)| x.0 != y.0) {
+                let at = q.data.iter().zip(built.qr.data.iter()).position(|(x, y)| x.0 != y.0);
+                return fail(
+                    "copy_differs",
+                    format!("{} of a v{} symbol differs from the symbol at backing-array index {:?} (size*size = {}; copy size {}) ({:?})", what, vs, at, n * n, q.size, bc),
+                );
+            }
+        }
+        obs.label("copies_checked");
+    }
     obs.count("alignment_modules_checked", g.count(Region::Alignment) as u64);
     obs.nontrivial(bc.hash());
     obs.sample(&format!("band:{}", crate::gens::version_band(vs)), || bc.to_sample());
@@ -105,7 +134,7 @@ pub fn run(e: &'static Engine) {
         }));
     }
     e.par(jobs);
-    super::common::standard_parts(e, 6400, 96000, check);
+    super::common::standard_parts(e, 32000, 256000, check);
     e.put("cells_total", json!(40 * 4 * 9));
     e.set_exhaustive(false, "all 40 versions x 4 levels x 9 mask settings are enumerated and every coordinate of every symbol is compared; payloads are sampled");
 }
